@@ -565,12 +565,12 @@ Qed.
 
 (* any observation trace accepted by the executable property has the FIFO property *)
 Theorem prop_implies_fifo i o cap ops outs :
-  conc_mode i = false ->
+  pool_mode i = false -> conc_mode i = false ->
   decode_input i = Some (cap, ops) -> decode_outs o = Some outs -> prop_C21 i o = true ->
   is_prefix_of (concat (reads outs)) (concat (accepted_writes ops outs)) /\
   (~ In ORelease ops -> exists rest, concat (accepted_writes ops outs) = concat (reads outs) ++ rest).
 Proof.
-  intros Hc Hi Ho Hp. unfold prop_C21 in Hp. rewrite Hi, Ho, Hc in Hp. unfold spec_ok in Hp.
+  intros Hpm Hc Hi Ho Hp. unfold prop_C21 in Hp. rewrite Hpm, Hi, Ho, Hc in Hp. unfold spec_ok in Hp.
   destruct (spec_run (spec_init cap) ops outs) as [s'|] eqn:Hs; [|discriminate].
   split.
   - exact (spec_run_prefix ops outs (spec_init cap) s' Hs (srel_init cap)).
@@ -592,10 +592,82 @@ Proof.
   simpl. rewrite decode_encode_obs. simpl in IH. rewrite IH. reflexivity.
 Qed.
 
+(* ---------- pooled buffers: a pipe built on a recycled buffer refines a FRESH specification ---------- *)
+Definition pool_ok (cap : nat) (pool : list fbuf) : Prop :=
+  Forall (fun b => fb_inv b /\ length (fb_buf b) = cap /\ fb_r b = 0%nat /\ fb_w b = 0%nat) pool.
+
+Lemma inv_from cap b : fb_inv b -> length (fb_buf b) = cap -> p_inv cap (pipe_from b).
+Proof. intros H1 H2. split; simpl; [split; assumption|]. intros c H. discriminate. Qed.
+Lemma R_from cap b : fb_r b = 0%nat -> fb_w b = 0%nat -> R cap (pipe_from b) (spec_init cap).
+Proof.
+  intros Hr Hw. exists false, 0. unfold absf, spec_init, pending, pipe_from, fb_slice. simpl. rewrite Hr, Hw. simpl.
+  repeat split; try lia; try discriminate.
+Qed.
+
+Lemma run_from_pool_ok cap ops : forall p pool s p' pool' outs,
+  p_inv cap p -> R cap p s -> pool_ok cap pool -> run_from_pool p pool ops = (p', pool', outs) ->
+  (exists s', spec_run s ops outs = Some s') /\ pool_ok cap pool' /\ length outs = length ops.
+Proof.
+  induction ops as [|o ops IH]; intros p pool s p' pool' outs Hinv HR Hpool Hrun; cbn [run_from_pool] in Hrun.
+  - inversion Hrun; subst. split; [exists s; reflexivity|]. split; [exact Hpool|reflexivity].
+  - destruct (step p o) as [p1 b] eqn:Es.
+    set (pool1 := match o, p_b p with ORelease, Some b0 => fb_reset b0 :: pool | _, _ => pool end) in *.
+    destruct (run_from_pool p1 pool1 ops) as [[p2 pool2] bs] eqn:Er. inversion Hrun; subst p' pool' outs; clear Hrun.
+    destruct (sim_step cap p s o p1 b Hinv HR Es) as (s1 & Hs1 & HR1 & Hinv1).
+    assert (Hpool1 : pool_ok cap pool1).
+    { unfold pool1. destruct o; try exact Hpool. destruct (p_b p) as [b0|] eqn:Eb; [|exact Hpool].
+      constructor; [|exact Hpool]. destruct Hinv as [Hb _]. rewrite Eb in Hb. destruct Hb as [[H1 H2] H3].
+      unfold fb_reset, fb_inv. simpl. repeat split; try lia. }
+    destruct (IH p1 pool1 s1 p2 pool2 bs Hinv1 HR1 Hpool1 Er) as ([s2 Hs2] & Hp2 & Hlen).
+    split; [exists s2; simpl; rewrite Hs1; exact Hs2|]. split; [exact Hp2|simpl; rewrite Hlen; reflexivity].
+Qed.
+
+Lemma pool_get_ok cap pool b pool1 : pool_ok cap pool -> pool_get cap pool = (b, pool1) ->
+  fb_inv b /\ length (fb_buf b) = cap /\ fb_r b = 0%nat /\ fb_w b = 0%nat /\ pool_ok cap pool1.
+Proof.
+  unfold pool_get. destruct pool as [|b0 r]; intros Hp E; inversion E; subst.
+  - unfold fb_new, fb_inv. simpl. rewrite repeat_length. repeat split; try lia. constructor.
+  - inversion Hp as [|? ? Hb Hr]; subst. destruct Hb as (H1 & H2 & H3 & H4).
+    split; [exact H1|split; [exact H2|split; [exact H3|split; [exact H4|exact Hr]]]].
+Qed.
+
+(* every generation of a pooled history is accepted by a fresh specification *)
+Lemma run_gens_ok cap : forall gens pool, pool_ok cap pool ->
+  Forall2 (fun g outs => spec_ok cap g outs = true /\ length outs = length g) gens (run_gens cap pool gens).
+Proof.
+  induction gens as [|g rest IH]; intros pool Hpool; cbn [run_gens]; [constructor|].
+  destruct (pool_get cap pool) as [b pool1] eqn:Eg.
+  destruct (pool_get_ok cap pool b pool1 Hpool Eg) as (H1 & H2 & H3 & H4 & Hp1).
+  destruct (run_from_pool (pipe_from b) pool1 g) as [[p' pool2] outs] eqn:Er.
+  destruct (run_from_pool_ok cap g _ _ _ _ _ _ (inv_from cap b H1 H2) (R_from cap b H3 H4) Hp1 Er) as ([s' Hs] & Hp2 & Hlen).
+  constructor; [|apply IH; exact Hp2].
+  split; [unfold spec_ok; rewrite Hs; reflexivity|exact Hlen].
+Qed.
+
+Lemma check_join cap : forall gens outs,
+  Forall2 (fun g o => spec_ok cap g o = true /\ length o = length g) gens outs ->
+  check_gens cap gens (join_gens outs) = true.
+Proof.
+  induction gens as [|g rest IH]; intros outs H; inversion H as [|? o ? outs' [Hok Hlen] Hrest]; subst; [reflexivity|].
+  cbn [check_gens].
+  assert (Hf : forall tl, firstn (length g) (map encode_obs o ++ tl) = map encode_obs o).
+  { intros tl. apply firstn_exact. rewrite map_length. symmetry. exact Hlen. }
+  assert (Hs : forall tl, skipn (length g) (map encode_obs o ++ tl) = tl).
+  { intros tl. rewrite <- Hlen, <- (map_length encode_obs o). rewrite skipn_app, Nat.sub_diag, skipn_all. reflexivity. }
+  pose proof (decode_encode_outs o) as Hd. unfold decode_outs in Hd.
+  destruct outs' as [|o2 outs2].
+  - inversion Hrest; subst. cbn [join_gens]. rewrite <- (app_nil_r (map encode_obs o)). rewrite Hf, Hs, Hd, Hok. reflexivity.
+  - inversion Hrest as [|g2 ? rest2 ? Hh Ht]; subst. cbn [join_gens]. rewrite Hf, Hs, Hd, Hok. cbn [andb].
+    apply (IH (o2 :: outs2)). exact Hrest.
+Qed.
+
 (* central shape: the model satisfies the executable property on every well-formed input *)
 Theorem prop_of_model i : wf_C21 i = true -> kf_C21 i = 0 -> prop_C21 i (run_C21 i) = true.
 Proof.
   intros Hwf _. unfold wf_C21 in Hwf. unfold prop_C21, run_C21.
+  destruct (pool_mode i).
+  { destruct (decode_gens i) as [[cap gens]|] eqn:Hi; [|discriminate].
+    apply check_join. apply run_gens_ok. constructor. }
   destruct (decode_input i) as [[cap ops]|] eqn:Hi; [|discriminate].
   destruct (conc_mode i).
   - change (VL [encode_obs (transfer_result ops)]) with (VL (map encode_obs [transfer_result ops])).
@@ -603,6 +675,23 @@ Proof.
     rewrite Nat.eqb_refl, lz_eqb_refl. reflexivity.
   - rewrite decode_encode_outs. apply model_refines_spec.
 Qed.
+
+(* A Reset that only rewinds the write index is NOT enough: partial read, Release, reuse loses bytes *)
+Lemma reset_w_only_breaks :
+  let b1 := fst (fst (fb_write (fb_new 8) [104;101;108;108;111])) in          (* "hello" *)
+  let b2 := fst (fst (fb_read b1 2)) in                                      (* partial read: r = 2 *)
+  snd (run_from (pipe_from (fb_reset_w_only b2)) [OWrite [104;101;108;108;111]; ORead 8])
+    = [BWrite 5 0; BRead 3 [108;108;111] 0 0] /\                               (* "llo" *)
+  snd (run_from (pipe_from (fb_reset b2)) [OWrite [104;101;108;108;111]; ORead 8])
+    = [BWrite 5 0; BRead 5 [104;101;108;108;111] 0 0].
+Proof. vm_compute. split; reflexivity. Qed.
+
+Lemma ex_pool_wire :
+  run_C21 (VL [VZ 8; VZ 8; VL [VL [VZ 1; VB [104;101;108;108;111]]; VL [VZ 2; VZ 2]; VL [VZ 6]; VL [VZ 10];
+                               VL [VZ 9]; VL [VZ 1; VB [104;101;108;108;111]]; VL [VZ 2; VZ 8]]])
+  = VL [VL [VZ 1; VZ 5; VZ 0]; VL [VZ 2; VZ 2; VB [104;101]; VZ 0; VZ 0]; VL []; VL [];
+        VL [VZ 9; VZ 0; VZ 0]; VL [VZ 1; VZ 5; VZ 0]; VL [VZ 2; VZ 5; VB [104;101;108;108;111]; VZ 0; VZ 0]].
+Proof. vm_compute. reflexivity. Qed.
 
 (* ---------- single-step statements over reachable states ---------- *)
 Theorem write_all_or_error cap p d :
